@@ -130,7 +130,8 @@ structure Facts where
   /-- some request path parks a context / session / sender in server-level storage (or takes its context from
       somewhere else than its own parameter) -/
   sharedSlot : Bool
-  /-- a list handler writes server-level state (a cached filter result) -/
+  /-- a list handler keeps list memory across requests: it writes server-level state (a cached filter result), hands
+      the filter a snapshot that is not made for this call, or builds its result in pooled memory -/
   listCache : Bool
   deriving Repr, DecidableEq
 
@@ -318,11 +319,15 @@ def argOk (a : Text × Text × Text × Text) : Bool :=
 
 def filterCallOk (a : Text × Text × Text × Text) : Bool := a.2.2.2 == t!"param"
 
+/-- A list handler's input snapshot / result slice is memory made inside that call (nothing cached, nothing pooled). -/
+def listFactFresh (a : Text × Text × Text) : Bool := a.2.2 == t!"fresh"
+
 /-- The facts of today's source. -/
 def codeFacts : Facts :=
   { foldAscending := Mcp.Gen.cfPostFoldAscending
     sharedSlot := !(Mcp.Gen.cfStores.all storeAllowed && Mcp.Gen.cfCtxArgs.all argOk)
-    listCache := !Mcp.Gen.cfListFieldWrites.isEmpty }
+    listCache := !(Mcp.Gen.cfListFieldWrites.isEmpty && Mcp.Gen.cfListPoolUses.isEmpty &&
+      Mcp.Gen.cfListSnapshots.all listFactFresh && Mcp.Gen.cfListResults.all listFactFresh) }
 
 /-! ### Vocabulary of the property theorems (`Mcp.Props.C13`) -/
 
